@@ -150,8 +150,10 @@ impl SyncReadBuf {
                     let _ = inner.reserve_exact(new_capacity - capacity);
                 }
 
+                // Never read more than what is left below the size limit.
                 let len = inner.buf_len();
-                let read_slice = inner.slice(len..);
+                let room = self.max_buffer_size - len;
+                let read_slice = inner.slice(len..len.saturating_add(room));
                 stream.read(read_slice).await.into_inner()
             })
             .await?;
